@@ -658,10 +658,12 @@ class ObjTranslator:
     def __init__(self, fn, *, src_file, lean_name, kind, siblings, externals=(), ignored_calls=(), params=None,
                  has_self=True, stop_before=None, result_locals=None, doc="", method_externals=(), consts=None,
                  state=None, state_siblings=None, enter_ok=True, operators=None, constructors=None, owner_cls=None,
-                 module_tables=None, module_calls=None, dict_base=False):
+                 module_tables=None, module_calls=None, dict_base=False, module_consts=None):
         self.fn, self.src_file, self.lean_name, self.kind = fn, src_file, lean_name, kind
         # a subclass of `dict`: the instance keeps its items under the pseudo attribute "<dict>"; `super().m(…)` is `dict.m`
         self.dict_base = dict_base
+        # constants of a class of another module, read from its source: "utype.Options.THROW" -> Lean code of the value
+        self.module_consts: dict = dict(module_consts or {})
         self.siblings: dict[str, Sibling] = siblings
         self.externals, self.ignored_calls = set(externals), set(ignored_calls)
         self.method_externals = set(method_externals)
@@ -803,6 +805,8 @@ class ObjTranslator:
             or (isinstance(e.func, ast.Name) and e.func.id in OBJ_EXC_BUILTIN))
 
     def val(self, e):
+        if isinstance(e, ast.Attribute) and self.module_consts and ast.unparse(e) in self.module_consts:
+            return self.module_consts[ast.unparse(e)], True
         if isinstance(e, ast.Name):
             if e.id == "unprovided":
                 return "OVal.unprovided", True
@@ -920,10 +924,15 @@ class ObjTranslator:
                 self.fail(e, "call of a sibling with effects inside an expression")
             args = sb.positional(self, e)
             return f"{sb.lean_name} W {self.recv_l} {' '.join(self.atom(x) for x in args)}".rstrip(), False
-        if ast.unparse(f) in self.module_calls and all(k.arg for k in e.keywords) \
-                and not any(isinstance(x, ast.Starred) for x in e.args):
-            # a function / class of another module, the world's by name; keyword arguments travel as (name, value) pairs
-            kws = [f"(OVal.seq .tuple [(OVal.str {json.dumps(k.arg)}), {self.atom(k.value)}])" for k in e.keywords]
+        if isinstance(f, ast.Name) and f.id == "dict" and "dict" not in self.declared and not e.args and e.keywords \
+                and all(k.arg for k in e.keywords):
+            # `dict(k=v, …)`: the dict with those string keys, in that order
+            items = [f"((OVal.str {json.dumps(k.arg)}), {self.atom(k.value)})" for k in e.keywords]
+            return f"(OVal.dict [{', '.join(items)}])", True
+        if ast.unparse(f) in self.module_calls and not any(isinstance(x, ast.Starred) for x in e.args):
+            # a function / class of another module, the world's by name; keyword arguments travel as (name, value) pairs,
+            # a `**d` splat as the pair ("**", d)
+            kws = [f"(OVal.seq .tuple [(OVal.str {json.dumps(k.arg if k.arg else '**')}), {self.atom(k.value)}])" for k in e.keywords]
             items = [self.atom(x) for x in e.args] + kws
             return f"W.ext {json.dumps(self.module_calls[ast.unparse(f)])} [{', '.join(items)}]", False
         if isinstance(f, ast.Attribute) and e.keywords and all(k.arg for k in e.keywords) \
@@ -1709,7 +1718,7 @@ def gen_group(repo: Path, notes: list, *, src_file: str, cls_name: str | None, f
                                enter_ok=spec.get("enter_ok", True), operators=spec.get("operators"),
                                constructors=spec.get("constructors"), owner_cls=spec.get("cls", cls_name),
                                module_tables=spec.get("module_tables"), module_calls=spec.get("module_calls"),
-                               dict_base=spec.get("dict_base", False))
+                               dict_base=spec.get("dict_base", False), module_consts=spec.get("module_consts"))
             out.append(tr.translate() + "\n")
         except Untranslatable as e:
             notes.append(f"untranslatable {e} ({cls_name or ns}.{py})")
@@ -2012,6 +2021,20 @@ def check_context_manager(repo: Path, notes: list) -> bool:
     return ok
 
 
+def _class_str_consts(repo: Path, rel: str, cls_name: str, prefix: str) -> dict:
+    """the string constants written in the body of a class (`THROW = "throw"`), by dotted name"""
+    try:
+        cls = find_class(ast.parse((repo / rel).read_text()), cls_name)
+    except Exception:
+        cls = None
+    out = {}
+    for st in (cls.body if cls else []):
+        if isinstance(st, ast.Assign) and len(st.targets) == 1 and isinstance(st.targets[0], ast.Name) \
+                and isinstance(st.value, ast.Constant) and isinstance(st.value.value, str) and st.targets[0].id.isupper():
+            out[f"{prefix}.{st.targets[0].id}"] = f"(OVal.str {json.dumps(st.value.value)})"
+    return out
+
+
 def gen_parse(repo: Path, notes: list, gate_ok: bool) -> str:
     """Gen/Parse.lean: the functions that convert one value under a context and report through it —
     `ParserField.parse_value`, `BaseParser.parse_addition`, `Rule._parse_contains`, `Rule._validate_contains`.
@@ -2043,7 +2066,9 @@ def gen_parse(repo: Path, notes: list, gate_ok: bool) -> str:
                      gate_ok=gate_ok)
     body += _group_body(part)
     part = gen_group(repo, notes, src_file="utype/parser/rule.py", cls_name="LogicalType", ns="Parse", title="",
-                     funcs=[dict(py="logical_parse", arity=3, module_calls={"utype.Options": "Options"}, **common)],
+                     funcs=[dict(py="logical_parse", arity=3, module_calls={"utype.Options": "Options"},
+                                        module_consts=_class_str_consts(repo, "utype/parser/options.py", "Options", "utype.Options"),
+                                        **common)],
                      externals={"RuntimeContext"},
                      gate_ok=gate_ok)
     body += _group_body(part)
